@@ -383,4 +383,57 @@ theorem unfired_only_pops (ρ : Oracle) (i : Instr) (s : State) (h : operandsMet
 /-! non-vacuity: CODE.ATOM on an empty CODE stack (the repaired defect F22) is an unfired instruction -/
 example : operandsMet (.code .atom) C15.emptyState = false := by decide
 
+
+/-- **C10 (failed guard).** When a documented guard fails although every operand is present (zero divisor of
+INTEGER./, INTEGER.%, FLOAT./, FLOAT.%; a zero divisor inside the overlap of FLOATVECTOR./) the instruction has
+at most consumed its operands: nothing is pushed, and no binding, flag, graph, index or message changes -/
+theorem guard_failed_only_pops (ρ : Oracle) (i : Instr) (s : State) (h : guardFails i s = true) :
+    PopsOnly s (semFull ρ i s) := by
+  unfold guardFails at h
+  split at h
+  · -- INTEGER./
+    split at h
+    · next b a l hl =>
+      have hb : b = 0 := by simpa using h
+      subst hb
+      simp only [semFull, sem, semInt, bin2, Lens.int, hl]
+      refine ⟨⟨0, rfl⟩, ⟨2, by simp [hl]⟩, ⟨0, rfl⟩, ⟨0, rfl⟩, ⟨0, rfl⟩, ⟨0, rfl⟩, ⟨0, rfl⟩, ⟨0, rfl⟩, ⟨0, rfl⟩, ⟨0, rfl⟩,
+        rfl, rfl, rfl, rfl, rfl, rfl⟩
+    · simp at h
+  · split at h
+    · next b a l hl =>
+      have hb : b = 0 := by simpa using h
+      subst hb
+      simp only [semFull, sem, semInt, bin2, Lens.int, hl]
+      refine ⟨⟨0, rfl⟩, ⟨2, by simp [hl]⟩, ⟨0, rfl⟩, ⟨0, rfl⟩, ⟨0, rfl⟩, ⟨0, rfl⟩, ⟨0, rfl⟩, ⟨0, rfl⟩, ⟨0, rfl⟩, ⟨0, rfl⟩,
+        rfl, rfl, rfl, rfl, rfl, rfl⟩
+    · simp at h
+  · split at h
+    · next b a l hl =>
+      have hb : (b != 0) = false := by simp [bne, h]
+      simp only [semFull, sem, semFloat, bin2, Lens.float, hl, hb]
+      refine ⟨⟨0, rfl⟩, ⟨0, rfl⟩, ⟨2, by simp [hl]⟩, ⟨0, rfl⟩, ⟨0, rfl⟩, ⟨0, rfl⟩, ⟨0, rfl⟩, ⟨0, rfl⟩, ⟨0, rfl⟩, ⟨0, rfl⟩,
+        rfl, rfl, rfl, rfl, rfl, rfl⟩
+    · simp at h
+  · split at h
+    · next b a l hl =>
+      have hb : (b != 0) = false := by simp [bne, h]
+      simp only [semFull, sem, semFloat, bin2, Lens.float, hl, hb]
+      refine ⟨⟨0, rfl⟩, ⟨0, rfl⟩, ⟨2, by simp [hl]⟩, ⟨0, rfl⟩, ⟨0, rfl⟩, ⟨0, rfl⟩, ⟨0, rfl⟩, ⟨0, rfl⟩, ⟨0, rfl⟩, ⟨0, rfl⟩,
+        rfl, rfl, rfl, rfl, rfl, rfl⟩
+    · simp at h
+  · split at h
+    · next top second l off il hf hi =>
+      have hn : divOverlap second top off.toInt = none := by simpa using h
+      simp only [semFull, sem, fullExt, semVec, semVecF, elementwise, Lens.fvec, hf, hi, hn]
+      refine ⟨⟨0, rfl⟩, ⟨1, by simp [hi]⟩, ⟨0, rfl⟩, ⟨0, rfl⟩, ⟨0, rfl⟩, ⟨0, rfl⟩, ⟨0, rfl⟩, ⟨0, rfl⟩, ⟨0, rfl⟩,
+        ⟨2, by simp [hf]⟩, rfl, rfl, rfl, rfl, rfl, rfl⟩
+    · simp at h
+  · simp at h
+
+/-- non-vacuity: `( 7 0 INTEGER./ )` meets the guard hypothesis with both operands present -/
+example : guardFails (.integer .div) { Pushr.C15.emptyState with int := [0, 7] } = true
+    ∧ operandsMet (.integer .div) { Pushr.C15.emptyState with int := [0, 7] } = true := by decide
+
+
 end Pushr.C10
